@@ -2,14 +2,20 @@
 (* Spell checking (harper-core/src/linting/spell_check.rs over the dictionaries of *)
 (* DictOps).  Property C06.  A dictionary is a list of entries [w, d]: spelling and  *)
 (* dialect tag ("none" = every dialect); the word map keeps one entry per Id.        *)
+(* The applications check against a MERGED dictionary: the curated part first, the     *)
+(* user's words second (`cut` entries belong to the first part).  Metadata comes from   *)
+(* the first part that knows the word's Id; a spelling is exact if ANY part lists it.   *)
+(* FirstPartCanon = TRUE is a deviation a seeded change introduced: the exact test is   *)
+(* made only against the part that supplied the metadata, so a user word that is        *)
+(* another capitalisation of a curated entry is reported.                               *)
 EXTENDS DictOps
 
-CONSTANTS Chars, MaxWord, MaxDict
+CONSTANTS Chars, MaxWord, MaxDict, FirstPartCanon
 Dialects == {"US", "UK"}
 Tags == {"none", "US", "UK"}
 
-VARIABLES es, phase
-spvars == <<es, phase>>
+VARIABLES es, phase, cut
+spvars == <<es, phase, cut>>
 
 Words == UNION {[1..n -> Chars] : n \in 1..MaxWord}
 WordsOf(entries) == [i \in DOMAIN entries |-> entries[i].w]
@@ -30,9 +36,22 @@ IsLowerWord(w) == Lower(w) = w
 Capitalised(w) == [i \in DOMAIN w |-> IF i = 1 THEN (CASE w[1] = "a" -> "A" [] w[1] = "b" -> "B" [] OTHER -> w[1]) ELSE w[i]]
 Upper(w) == [i \in DOMAIN w |-> CASE w[i] = "a" -> "A" [] w[i] = "b" -> "B" [] OTHER -> w[i]]
 
-SInit == es = <<>> /\ phase = "build"
-AddEntry == phase = "build" /\ Len(es) < MaxDict /\ \E w \in Words, d \in Tags : es' = Append(es, [w |-> w, d |-> d]) /\ UNCHANGED phase
-Freeze == phase = "build" /\ phase' = "query" /\ UNCHANGED es
+SInit == es = <<>> /\ phase = "build" /\ cut = 0
+AddEntry == phase = "build" /\ Len(es) < MaxDict /\ \E w \in Words, d \in Tags : es' = Append(es, [w |-> w, d |-> d]) /\ UNCHANGED <<phase, cut>>
+Freeze == phase = "build" /\ phase' = "query" /\ cut' \in 0..Len(es) /\ UNCHANGED es
+
+\* the merged dictionary
+Part1 == SubSeq(es, 1, cut)
+Part2 == SubSeq(es, cut + 1, Len(es))
+KnownIn(p, w) == Id(w) \in DOMAIN TagMap(p)
+MetaPart(w) == IF KnownIn(Part1, w) THEN Part1 ELSE Part2
+ExactIn(p, w) == MutExact(WordsOf(p), w)
+AcceptMerged(w, active) ==
+  /\ KnownIn(Part1, w) \/ KnownIn(Part2, w)
+  /\ DialectOk(TagMap(MetaPart(w))[Id(w)], active)
+  /\ IF FirstPartCanon THEN ExactIn(MetaPart(w), w) \/ ExactIn(MetaPart(w), Lower(w))
+     ELSE \E p \in {Part1, Part2} : ExactIn(p, w) \/ ExactIn(p, Lower(w))
+NoClashIn(p) == \A i, j \in DOMAIN p : i # j => Id(p[i].w) # Id(p[j].w)
 SNext == AddEntry \/ Freeze
 
 \* one entry per Id (a later entry with the same Id replaces the earlier one: named deviation,
@@ -44,6 +63,12 @@ ListedAccepted == phase = "query" /\ NoClash => \A i \in DOMAIN es : \A a \in Di
 \* nor are the Capitalised / UPPER-CASE forms of a lower-case entry
 CasedFormsAccepted == phase = "query" /\ NoClash => \A i \in DOMAIN es : \A a \in Dialects :
    (IsLowerWord(es[i].w) /\ DialectOk(es[i].d, a)) => (Accept(es, Capitalised(es[i].w), a) /\ Accept(es, Upper(es[i].w), a))
+\* the same for the merged dictionary: whichever part lists the spelling (a user word may be another
+\* capitalisation of a curated entry); the dialect is that of the part that supplies the metadata
+MergedListedAccepted == phase = "query" /\ NoClashIn(Part1) /\ NoClashIn(Part2) => \A i \in DOMAIN es : \A a \in Dialects :
+   DialectOk(TagMap(MetaPart(es[i].w))[Id(es[i].w)], a) => AcceptMerged(es[i].w, a)
+MergedUnknownFlagged == phase = "query" => \A w \in Words : \A a \in Dialects :
+   (~\E i \in DOMAIN es : Id(es[i].w) = Id(w)) => ~AcceptMerged(w, a)
 \* a word the dictionary does not contain under any capitalisation is reported
 UnknownFlagged == phase = "query" => \A w \in Words : \A a \in Dialects :
    (~\E i \in DOMAIN es : Id(es[i].w) = Id(w)) => ~Accept(es, w, a)
